@@ -120,10 +120,9 @@ where
             .metric
             .concurrency_counter
             .add_if_absent(arg.clone(), 0);
-        if last_concurrency.is_none() {
-            return TokenResult::new_pass();
-        }
-        let concurrency = last_concurrency.unwrap().load(Ordering::SeqCst) + 1;
+        // a value seen for the first time has nothing in flight yet; it is held against the limit like any other
+        // (a limit of 0 admits nothing)
+        let concurrency = last_concurrency.map_or(0, |c| c.load(Ordering::SeqCst)) + 1;
 
         let threshold = {
             // settings stored in the `specific_items` is prior to the `threshold` in `rule`
